@@ -294,6 +294,7 @@ func (s *Session) Read(b []byte) (n int, err error) {
 
 			// recvQueue is empty and we haven't read anything.
 			// Wait for incoming segments to fill the recvQueue.
+			verifHookReadBeforeWait(s)
 			select {
 			case <-s.closedChan:
 				if s.recvIncomplete.Load() {
